@@ -18,7 +18,8 @@ def walletBal (c : TokenCfg) (s : DState) : Rat := (AList.get? s.wallet c.token)
 /-- what the account is worth in the market's token: wallet + exchange cash + options at (rounded) mark -/
 def acctValue (c : TokenCfg) (s : DState) : Rat := walletBal c s + s.cash + markValue c s.book s.positions
 
-/-- the frozen market data the property allows: books in good shape and bids ≤ mark ≤ asks, with the mark as the
+/-- the frozen market data the property allows: books with non-negative sizes (sides may be unsorted and may repeat a
+    price: orders are matched against the normalised side) and bids ≤ mark ≤ asks, with the mark as the
     valuation uses it (rounded to the fee step), non-negative marks and bid prices -/
 structure FrozenOK (c : TokenCfg) (book : List Instr) : Prop where
   inv : BookInv book
@@ -45,6 +46,25 @@ theorem tradeFee_nonneg (c : TokenCfg) (hc : 0 ≤ c.tradeFee) (a p : Rat) (ha :
   simp only [exact_num, NumCtx.exact_mul]
   have hm : (0 : Rat) ≤ maxFeeRate := by rw [C15_constants.2.2.1]; norm_num
   exact le_min (mul_nonneg hc ha) (mul_nonneg hm hp)
+
+/-- the constraints of the frozen data carry over to the normalised copy of a row that orders are matched against
+    (its prices are prices of the raw sides, its mark is the row's mark) -/
+theorem frozen_norm {c : TokenCfg} {book : List Instr} (hf : FrozenOK c book) {i0 : Instr} (hm : i0 ∈ book) :
+    SideOk (normInstr DCtx.exact i0).asks ∧ SideOk (normInstr DCtx.exact i0).bids ∧
+    0 ≤ (normInstr DCtx.exact i0).mark ∧
+    (∀ l ∈ (normInstr DCtx.exact i0).asks, roundDec c.feeExp (normInstr DCtx.exact i0).mark ≤ l.price) ∧
+    (∀ l ∈ (normInstr DCtx.exact i0).bids, l.price ≤ roundDec c.feeExp (normInstr DCtx.exact i0).mark) ∧
+    (∀ l ∈ (normInstr DCtx.exact i0).bids, 0 ≤ l.price) := by
+  refine ⟨sideOk_normSide (hf.inv i0 hm).1, sideOk_normSide (hf.inv i0 hm).2, hf.mark_nonneg i0 hm, ?_, ?_, ?_⟩
+  · intro l hl
+    obtain ⟨l0, h0, hp⟩ := normSide_mem_price hl
+    rw [← hp]; exact hf.asks_ge i0 hm l0 h0
+  · intro l hl
+    obtain ⟨l0, h0, hp⟩ := normSide_mem_price hl
+    rw [← hp]; exact hf.bids_le i0 hm l0 h0
+  · intro l hl
+    obtain ⟨l0, h0, hp⟩ := normSide_mem_price hl
+    rw [← hp]; exact hf.bids_nonneg i0 hm l0 h0
 end Deribit
 
 /-- **a buy never creates value** (exact arithmetic, asks ≥ mark): the account value drops by the fee and
@@ -53,18 +73,20 @@ theorem C03_deribit_buy_no_value_created (c : TokenCfg) (hc : 0 ≤ c.tradeFee) 
     (hf : FrozenOK c s.book) (hp : PosInv s) (h : buy DCtx.exact c s r = (.ok res, s')) :
     acctValue c s' ≤ acctValue c s := by
   obtain ⟨_, ck, hck, fills, prem, fee, hfills, hprem, hfee, _, hcash, _, hs'⟩ := buy_ok h
-  obtain ⟨hfind, _, _, _, _⟩ := checkTx_ok hck
+  obtain ⟨⟨ins0, hfind, hnorm⟩, _, _, _, _⟩ := checkTx_ok hck
   have hmem := findInstr_mem hfind
+  obtain ⟨hside, _, hmark0, hage, _, _⟩ := frozen_norm hf hmem
+  rw [← hnorm] at hside hmark0 hage
+  have hmark : ins0.mark = ck.ins.mark := by rw [hnorm]; rfl
   obtain ⟨f, hfl⟩ := availAsks_filter ck.ins r.mult
-  have hside := (hf.inv ck.ins hmem).1
   obtain ⟨hsum, hnn, hall⟩ := fills_props hck ck.ins.asks f (by simp [availSide, hfl]) hside
   rw [← hfl, ← hfills] at hsum hall
   set mR := roundDec c.feeExp ck.ins.mark with hmR
-  have hmR0 : 0 ≤ mR := roundDec_nonneg _ (hf.mark_nonneg ck.ins hmem)
+  have hmR0 : 0 ≤ mR := roundDec_nonneg _ hmark0
   have hge : ∀ x ∈ fills, 0 ≤ x.amount ∧ mR ≤ x.price := by
     intro x hx
     obtain ⟨h0, l, hl, _, hpe⟩ := hall x hx
-    exact ⟨h0, hpe ▸ hf.asks_ge ck.ins hmem l hl⟩
+    exact ⟨h0, hpe ▸ hage l hl⟩
   have hcost : mR * ck.amount ≤ fillCost fills := by rw [← hsum]; exact fillCost_ge fills mR hge
   have hcost0 : 0 ≤ fillCost fills := fillCost_nonneg fills (fun x hx => ⟨(hge x hx).1, le_trans hmR0 (hge x hx).2⟩)
   rw [premiumOf_exact] at hprem
@@ -77,9 +99,9 @@ theorem C03_deribit_buy_no_value_created (c : TokenCfg) (hc : 0 ≤ c.tradeFee) 
     rw [markValue_setAsks, markValue_set c s.book s.positions r.name _ hp.1]
     unfold heldValue boughtPosition
     cases hg : AList.get? s.positions r.name with
-    | none => simp only [posValue, hfind]; ring
+    | none => simp only [posValue, hfind, hmark]; ring
     | some p =>
-      simp only [posValue, hname p hg, hfind, exact_num, NumCtx.exact_add]; ring
+      simp only [posValue, hname p hg, hfind, hmark, exact_num, NumCtx.exact_add]; ring
   have hw : walletBal c s' = walletBal c s := by rw [hs']; rfl
   unfold acctValue
   rw [hpos, hw, hcash, hprem]
@@ -91,21 +113,23 @@ theorem C03_deribit_sell_no_value_created (c : TokenCfg) (hc : 0 ≤ c.tradeFee)
     (hf : FrozenOK c s.book) (hp : PosInv s) (h : sell DCtx.exact c s r = (.ok res, s')) :
     acctValue c s' ≤ acctValue c s := by
   obtain ⟨_, ck, p, bids, hck, hget, hle, hbids, fills, prem, fee, hfills, hprem, hfee, _, hs'⟩ := sell_ok h
-  obtain ⟨hfind, _, _, _, _⟩ := checkTx_ok hck
+  obtain ⟨⟨ins0, hfind, hnorm⟩, _, _, _, _⟩ := checkTx_ok hck
   have hmem := findInstr_mem hfind
+  obtain ⟨_, hside, _, _, hble, hbnn⟩ := frozen_norm hf hmem
+  rw [← hnorm] at hside hble hbnn
+  have hmark : ins0.mark = ck.ins.mark := by rw [hnorm]; rfl
   obtain ⟨f, hfl⟩ := availBids_filter hbids
-  have hside := (hf.inv ck.ins hmem).2
   obtain ⟨hsum, hnn, hall⟩ := fills_props hck ck.ins.bids f (by simp [availSide, hbids, hfl]) hside
   rw [← hfl, ← hfills] at hsum hall
   set mR := roundDec c.feeExp ck.ins.mark with hmR
   have hle' : ∀ x ∈ fills, 0 ≤ x.amount ∧ x.price ≤ mR := by
     intro x hx
     obtain ⟨h0, l, hl, _, hpe⟩ := hall x hx
-    exact ⟨h0, hpe ▸ hf.bids_le ck.ins hmem l hl⟩
+    exact ⟨h0, hpe ▸ hble l hl⟩
   have hcost : fillCost fills ≤ mR * ck.amount := by rw [← hsum]; exact fillCost_le fills mR hle'
   have hcost0 : 0 ≤ fillCost fills := fillCost_nonneg fills (fun x hx => by
     obtain ⟨h0, l, hl, _, hpe⟩ := hall x hx
-    exact ⟨h0, hpe ▸ hf.bids_nonneg ck.ins hmem l hl⟩)
+    exact ⟨h0, hpe ▸ hbnn l hl⟩)
   rw [premiumOf_exact] at hprem
   have hfee0 : 0 ≤ fee := by rw [hfee, hprem]; exact tradeFee_nonneg c hc _ _ hnn hcost0
   have hname : p.name = r.name := hp.2 _ (get_mem hget)
@@ -114,14 +138,14 @@ theorem C03_deribit_sell_no_value_created (c : TokenCfg) (hc : 0 ≤ c.tradeFee)
     simp only []
     rw [markValue_setBids]
     have hheld : heldValue c s.book s.positions r.name = p.amount * mR := by
-      simp only [heldValue, hget, posValue, hname, hfind, hmR]
+      simp only [heldValue, hget, posValue, hname, hfind, hmark, hmR]
     split
     · rename_i hz
       simp only [soldPosition, exact_num, NumCtx.exact_sub] at hz
       have : p.amount = ck.amount := le_antisymm (by linarith) hle
       rw [markValue_erase c s.book s.positions r.name hp.1, hheld, this]
     · rw [markValue_set c s.book s.positions r.name _ hp.1, hheld]
-      simp only [posValue, soldPosition, hname, hfind, exact_num, NumCtx.exact_sub]
+      simp only [posValue, soldPosition, hname, hfind, hmark, exact_num, NumCtx.exact_sub]
       ring
   have hw : walletBal c s' = walletBal c s := by rw [hs']; rfl
   have hcash : s'.cash = s.cash + (fillCost fills - fee) := by rw [hs', hprem]; simp
@@ -236,7 +260,7 @@ theorem frozenOK_step (c : TokenCfg) (s : DState) (op : Op) (hf : FrozenOK c s.b
     | error e => simp only [step, hb]; rw [buy_err hb]; exact ⟨hf, hn⟩
     | ok res =>
       obtain ⟨_, ck, hck, fills, _, _, _, _, _, _, _, _, hs'⟩ := buy_ok hb
-      have hfind := (checkTx_ok hck).1
+      obtain ⟨ins0, hfind, hnorm⟩ := (checkTx_ok hck).1
       simp only [step, hb] at hinv ⊢
       have hbook : s'.book = setAsks s.book r.name (newOrderList DCtx.exact ck.ins.asks fills) := by rw [hs']
       rw [hbook] at hinv ⊢
@@ -247,10 +271,12 @@ theorem frozenOK_step (c : TokenCfg) (s : DState) (op : Op) (hf : FrozenOK c s.b
       · split <;> exact hf.mark_nonneg i0 hi0
       · split
         · rename_i hname
-          have hck0 : ck.ins = i0 := findInstr_unique hn (hname ▸ hfind) hi0
+          have hck0 : ins0 = i0 := findInstr_unique hn (hname ▸ hfind) hi0
           intro l hl
           obtain ⟨l0, hl0, hp⟩ := prices_of_new hl
-          rw [hp]; exact hf.asks_ge i0 hi0 l0 (hck0 ▸ hl0)
+          rw [hnorm, hck0] at hl0
+          obtain ⟨l00, hl00, hp0⟩ := normSide_mem_price hl0
+          rw [hp, ← hp0]; exact hf.asks_ge i0 hi0 l00 hl00
         · exact hf.asks_ge i0 hi0
       · split <;> exact hf.bids_le i0 hi0
       · split <;> exact hf.bids_nonneg i0 hi0
@@ -260,7 +286,7 @@ theorem frozenOK_step (c : TokenCfg) (s : DState) (op : Op) (hf : FrozenOK c s.b
     | error e => simp only [step, hb]; rw [sell_err hb]; exact ⟨hf, hn⟩
     | ok res =>
       obtain ⟨_, ck, p, bids, hck, _, _, _, fills, _, _, _, _, _, _, hs'⟩ := sell_ok hb
-      have hfind := (checkTx_ok hck).1
+      obtain ⟨ins0, hfind, hnorm⟩ := (checkTx_ok hck).1
       simp only [step, hb] at hinv ⊢
       have hbook : s'.book = setBids s.book r.name (newOrderList DCtx.exact ck.ins.bids fills) := by rw [hs']
       rw [hbook] at hinv ⊢
@@ -272,17 +298,21 @@ theorem frozenOK_step (c : TokenCfg) (s : DState) (op : Op) (hf : FrozenOK c s.b
       · split <;> exact hf.asks_ge i0 hi0
       · split
         · rename_i hname
-          have hck0 : ck.ins = i0 := findInstr_unique hn (hname ▸ hfind) hi0
+          have hck0 : ins0 = i0 := findInstr_unique hn (hname ▸ hfind) hi0
           intro l hl
           obtain ⟨l0, hl0, hp⟩ := prices_of_new hl
-          rw [hp]; exact hf.bids_le i0 hi0 l0 (hck0 ▸ hl0)
+          rw [hnorm, hck0] at hl0
+          obtain ⟨l00, hl00, hp0⟩ := normSide_mem_price hl0
+          rw [hp, ← hp0]; exact hf.bids_le i0 hi0 l00 hl00
         · exact hf.bids_le i0 hi0
       · split
         · rename_i hname
-          have hck0 : ck.ins = i0 := findInstr_unique hn (hname ▸ hfind) hi0
+          have hck0 : ins0 = i0 := findInstr_unique hn (hname ▸ hfind) hi0
           intro l hl
           obtain ⟨l0, hl0, hp⟩ := prices_of_new hl
-          rw [hp]; exact hf.bids_nonneg i0 hi0 l0 (hck0 ▸ hl0)
+          rw [hnorm, hck0] at hl0
+          obtain ⟨l00, hl00, hp0⟩ := normSide_mem_price hl0
+          rw [hp, ← hp0]; exact hf.bids_nonneg i0 hi0 l00 hl00
         · exact hf.bids_nonneg i0 hi0
   | deposit a =>
     have : (step DCtx.exact c s (.deposit a)).2.book = s.book := by
@@ -481,14 +511,16 @@ theorem C03_deribit_nonneg_preserved (c : TokenCfg) (hc : 0 ≤ c.tradeFee) (s :
       · exact hnn.2.1 kp h
     | sell r =>
       obtain ⟨_, ck, p, bids, hck, hget, hle, hbids, fills, prem, fee, hfills, hprem, hfee, _, hs'⟩ := sell_ok hstep
-      obtain ⟨hfind, _, _, _, _⟩ := checkTx_ok hck
+      obtain ⟨⟨ins0, hfind, hnorm⟩, _, _, _, _⟩ := checkTx_ok hck
       have hmem := findInstr_mem hfind
+      obtain ⟨_, hside, _, _, _, hbnn⟩ := frozen_norm hf hmem
+      rw [← hnorm] at hside hbnn
       obtain ⟨f, hfl⟩ := availBids_filter hbids
-      obtain ⟨_, hnn', hall⟩ := fills_props hck ck.ins.bids f (by simp [availSide, hbids, hfl]) (hf.inv ck.ins hmem).2
+      obtain ⟨_, hnn', hall⟩ := fills_props hck ck.ins.bids f (by simp [availSide, hbids, hfl]) hside
       rw [← hfl, ← hfills] at hall
       have hcost0 : 0 ≤ fillCost fills := fillCost_nonneg fills (fun x hx => by
         obtain ⟨h0, l, hl, _, hpe⟩ := hall x hx
-        exact ⟨h0, hpe ▸ hf.bids_nonneg ck.ins hmem l hl⟩)
+        exact ⟨h0, hpe ▸ hbnn l hl⟩)
       rw [premiumOf_exact] at hprem
       have hfee : fee ≤ prem := by rw [hfee, hprem]; exact tradeFee_le_premium c hc _ _ hnn' hcost0
       refine ⟨?_, ?_, by rw [hs']; exact hnn.2.2⟩
@@ -594,8 +626,10 @@ theorem C03_deribit_no_over_redemption (c : TokenCfg) (s s' : DState) (r : Req) 
   simp only [Res.trade.injEq] at hres
   obtain ⟨rfl, _⟩ := hres
   obtain ⟨f, hfl⟩ := availBids_filter hbids
-  have hmem := findInstr_mem (checkTx_ok hck).1
-  obtain ⟨hsum, _, _⟩ := fills_props hck ck.ins.bids f (by simp [availSide, hbids, hfl]) (hf.inv ck.ins hmem).2
+  obtain ⟨ins0, hfind, hnorm⟩ := (checkTx_ok hck).1
+  have hside := (frozen_norm hf (findInstr_mem hfind)).2.1
+  rw [← hnorm] at hside
+  obtain ⟨hsum, _, _⟩ := fills_props hck ck.ins.bids f (by simp [availSide, hbids, hfl]) hside
   rw [← hfl, ← hfills] at hsum
   exact ⟨p, hget, hsum ▸ hle⟩
 
@@ -618,7 +652,7 @@ open Deribit
 example : FrozenOK ethCfg c03State.book := by
   have hm : roundDec ethCfg.feeExp c03Instr.mark = 287 / 10000 := by decide +kernel
   refine ⟨?_, ?_, ?_, ?_, ?_⟩ <;> intro i hi <;> simp only [c03State, List.mem_singleton] at hi <;> subst hi
-  · refine ⟨⟨by unfold PricesNodup; decide +kernel, ?_⟩, ⟨by unfold PricesNodup; decide +kernel, ?_⟩⟩ <;>
+  · refine ⟨?_, ?_⟩ <;>
       (intro l hl; simp only [c03Instr, List.mem_cons, List.not_mem_nil, or_false] at hl; rcases hl with rfl | rfl <;> norm_num)
   · simp [c03Instr]; norm_num
   · intro l hl; rw [hm]; simp only [c03Instr, List.mem_cons, List.not_mem_nil, or_false] at hl; rcases hl with rfl | rfl <;> norm_num
